@@ -540,11 +540,51 @@ func (c *Ctx) wholeFileWrites(rule string, roots []*ssa.Function) int {
 					c.S.OK(rule, load.FuncName(f)+"→"+load.FuncName(g)+":os."+cal.Name(), c.pos(call.Pos()), "replaces the file's contents", false)
 					continue
 				}
-				k, isK := call.Common().Args[1].(*ssa.Const)
+				// the flags: a constant here, or a parameter of a small opening helper that every caller inside this
+				// closure hands a constant
+				var flagVals []int64
+				flagsKnown := false
+				switch a := call.Common().Args[1].(type) {
+				case *ssa.Const:
+					if a.Value != nil {
+						flagVals, flagsKnown = []int64{a.Int64()}, true
+					}
+				case *ssa.Parameter:
+					idx := -1
+					for i, q := range g.Params {
+						if q == a {
+							idx = i
+						}
+					}
+					if node := c.P.CallGraph().Nodes[g]; node != nil && idx >= 0 {
+						flagsKnown = true
+						for _, e := range node.In {
+							if e.Site == nil || !clo[e.Caller.Func] {
+								continue
+							}
+							if e.Site.Common().StaticCallee() != g || idx >= len(e.Site.Common().Args) {
+								flagsKnown = false
+								continue
+							}
+							if k, ok := e.Site.Common().Args[idx].(*ssa.Const); ok && k.Value != nil {
+								flagVals = append(flagVals, k.Int64())
+							} else {
+								flagsKnown = false
+							}
+						}
+						if len(flagVals) == 0 {
+							flagsKnown = false
+						}
+					}
+				}
 				okFlags := false
 				detail := "the open flags are not a constant"
-				if isK && k.Value != nil {
-					fl := k.Int64()
+				okAll := flagsKnown
+				for _, fl := range flagVals {
+					if !flagsKnown {
+						break
+					}
+					okFlags = false
 					oWronly, ok1 := c.extConstInt("os", "O_WRONLY")
 					oRdwr, ok2 := c.extConstInt("os", "O_RDWR")
 					oTrunc, ok3 := c.extConstInt("os", "O_TRUNC")
@@ -577,7 +617,12 @@ func (c *Ctx) wholeFileWrites(rule string, roots []*ssa.Function) int {
 					} else {
 						detail = "os.O_* constants not found"
 					}
+					okAll = okAll && okFlags
+					if !okFlags {
+						break
+					}
 				}
+				okFlags = okAll
 				c.S.Check(okFlags, rule, load.FuncName(f)+"→"+load.FuncName(g)+":os.OpenFile", c.pos(call.Pos()), "opened with O_TRUNC", detail)
 			}
 		}
